@@ -185,11 +185,18 @@ impl G<'_> {
         }
         text.push("RETURN 1 AS one".into());
         q.push(C::Read(E::Leaf));
-        if allow_union && depth > 0 && self.r.chance(1, 4) {
-            let wu = self.r.chance(1, 2);
-            let (t, sub) = self.query(depth - 1, wu, false);
-            text.push(format!("UNION {}", t));
-            q.push(C::Union(sub));
+        if allow_union && depth > 0 && self.r.chance(1, 3) {
+            // A UNION B UNION C ... parses to the FLAT list [A.., Union(B), Union(C), ..]; 1-4 branches, all
+            // UNION or all UNION ALL, the update (if any) in any of them — also only in the last one
+            let branches = 1 + self.r.below(4);
+            let all = self.r.chance(1, 2);
+            let only_last = self.r.chance(1, 3);
+            for i in 0..branches {
+                let wu = if only_last { i + 1 == branches } else { self.r.chance(1, 3) };
+                let (t, sub) = self.query(depth - 1, wu, false);
+                text.push(format!("UNION {}{}", if all { "ALL " } else { "" }, t));
+                q.push(C::Union(sub));
+            }
         }
         (text.join(" "), q)
     }
@@ -514,6 +521,39 @@ const ERRS: &[(&str, bool)] = &[
     ("RETURN 1 AS a UNION RETURN 2 AS b", false),
     ("CALL db.nope()", false),
 ];
+/// write statements for the state-parity stream; `{k}` / `{x}` are replaced by small random integers.
+/// Several report a change count of 0 although they write (MERGE .. ON MATCH SET on an existing entity,
+/// SET to the same value, REMOVE of a missing property / label).
+const STATE_WRITES: &[&str] = &[
+    "MERGE (n:P {k: {k}}) ON MATCH SET n.seen = {x} ON CREATE SET n.made = {x}",
+    "MERGE (n:P {k: {k}}) ON MATCH SET n.seen = {x}",
+    "MERGE (n:P {k: {k}})",
+    "MATCH (a:P {k: 1}), (b:P {k: 2}) MERGE (a)-[r:KNOWS]->(b) ON MATCH SET r.w = {x}",
+    "MATCH (a:P {k: {k}}), (b:R) MERGE (a)-[r:LIKES]->(b) ON CREATE SET r.w = {x} ON MATCH SET r.again = {x}",
+    "MATCH (n:P) SET n.name = n.name",
+    "MATCH (n:P {k: {k}}) SET n.score = {x}",
+    "MATCH (n:P {k: {k}}) REMOVE n.missing",
+    "MATCH (n:P {k: {k}}) REMOVE n.score",
+    "MATCH (n:Nope) SET n.x = {x}",
+    "MATCH (n:P {k: {k}}) SET n:Extra",
+    "MATCH (n:P {k: {k}}) REMOVE n:Extra",
+    "MATCH (n:P {k: {k}}) REMOVE n:NeverSet",
+    "MATCH (n:P {k: {k}}) SET n += {}",
+    "MATCH (n:P {k: {k}}) SET n += {extra: {x}}",
+    "CREATE (:T {k: {k}, v: {x}})",
+    "MATCH (n:T {k: {k}}) DETACH DELETE n",
+    "MATCH (n:T) WHERE n.k = {k} DELETE n",
+    "FOREACH (i IN [] | CREATE (:Never))",
+    "FOREACH (i IN [{x}] | MERGE (:F {i: i}))",
+    "MATCH (n:P {k: {k}}) SET n.seen = null",
+    "UNWIND [] AS u CREATE (:Never {u: u})",
+    "RETURN 1 AS x UNION RETURN 2 AS x UNION MERGE (m:U {k: {k}}) ON MATCH SET m.hit = {x} RETURN m.k AS x",
+];
+const STATE_DUMP: &[&str] = &[
+    "MATCH (n) RETURN labels(n) AS l, properties(n) AS p",
+    "MATCH (a)-[r]->(b) RETURN a.k AS a, type(r) AS t, b.k AS b, properties(r) AS p",
+];
+
 const SYNTAX_WORDS: &[&str] = &["syntax", "parse", "unexpected token", "unexpected character", "variablealreadybound", "variabletypeconflict"];
 const OTHER_WORDS: &[&str] = &["storage format mismatch", "compatibility", "wal", "checkpoint", "io error", "permission denied", "disk full", "no such file", "database is closed"];
 
@@ -539,6 +579,10 @@ fn main() {
         ("FOREACH (i IN [1] | )".into(), vec![C::Foreach(E::Leaf, vec![])]),
         ("RETURN 1 AS x UNION CREATE (z:Z) RETURN 1 AS x".into(), vec![C::Read(E::Leaf), C::Union(vec![C::Update(E::Leaf), C::Read(E::Leaf)])]),
         ("RETURN 'CREATE (n) SET n.x = 1 DELETE n' AS c".into(), vec![C::Read(E::Leaf)]),
+        // update only in the third / fourth UNION branch (flat clause list [A.., Union(B), Union(C), ..])
+        ("RETURN 1 AS x UNION RETURN 2 AS x UNION CREATE (m:W {v: 3}) RETURN m.v AS x".into(), vec![C::Read(E::Leaf), C::Union(vec![C::Read(E::Leaf)]), C::Union(vec![C::Update(E::Leaf), C::Read(E::Leaf)])]),
+        ("RETURN 1 AS x UNION ALL RETURN 2 AS x UNION ALL RETURN 3 AS x UNION ALL MATCH (n) SET n.p = 1 RETURN 4 AS x".into(), vec![C::Read(E::Leaf), C::Union(vec![C::Read(E::Leaf)]), C::Union(vec![C::Read(E::Leaf)]), C::Union(vec![C::Read(E::Leaf), C::Update(E::Leaf), C::Read(E::Leaf)])]),
+        ("RETURN 1 AS x UNION RETURN 2 AS x UNION RETURN 3 AS x".into(), vec![C::Read(E::Leaf), C::Union(vec![C::Read(E::Leaf)]), C::Union(vec![C::Read(E::Leaf)])]),
         ("MATCH (n) CALL { CALL { FOREACH (i IN [1] | CREATE (:Z)) } } RETURN 1".into(), vec![C::Read(E::Leaf), C::CallSub(vec![C::CallSub(vec![C::Foreach(E::Leaf, vec![C::Update(E::Leaf)])])]), C::Read(E::Leaf)]),
     ];
     let mut unparsed = 0u64;
@@ -744,15 +788,92 @@ fn main() {
             }
         }
     }
+    // ---------- (d) state parity: the same write statements through ndb_execute_write and through
+    // prepare / execute_mixed / commit on byte-identical databases; then both databases are read back
+    drop(cdb);
+    drop(rdb);
+    let n_state = (a.n / 15).max(12);
+    let mut state_cases = 0u64;
+    for idx in 0..n_state {
+        let gidx = a.n + ERRS.len() + idx;
+        let d = scratch_dir().unwrap();
+        let (pc, pr) = (d.path().join("c"), d.path().join("r"));
+        {
+            let x = CDb::open(&pc).unwrap();
+            for s in SETUP {
+                x.execute_write(s, None).unwrap();
+            }
+            x.close().unwrap();
+        }
+        for ext in ["ndb", "wal"] {
+            std::fs::copy(pc.with_extension(ext), pr.with_extension(ext)).unwrap();
+        }
+        let len = 2 + r.below(5) as usize;
+        let stmts: Vec<String> = (0..len)
+            .map(|i| {
+                let t = if idx == 0 && i < 2 { STATE_WRITES[0] } else { *r.pick(STATE_WRITES) };
+                t.replace("{k}", &r.range(1, 3).to_string()).replace("{x}", &r.range(0, 9).to_string())
+            })
+            .collect();
+        let cdb = CDb::open(&pc).unwrap();
+        let rdb = nervusdb::Db::open(&pr).unwrap();
+        let mut c_res = vec![];
+        let mut r_res = vec![];
+        for s in &stmts {
+            c_res.push(cdb.execute_write(s, None).map_err(|e| e.message));
+            let rr: Result<u32, String> = (|| {
+                let p = nervusdb_query::prepare(s).map_err(|e| e.to_string())?;
+                let snapshot = rdb.snapshot();
+                let mut txn = rdb.begin_write();
+                let (_rows, n) = p.execute_mixed(&snapshot, &mut txn, &Params::new()).map_err(|e| e.to_string())?;
+                txn.commit().map_err(|e| e.to_string())?;
+                Ok(n)
+            })();
+            r_res.push(rr);
+        }
+        cdb.close().unwrap();
+        drop(rdb);
+        let read_back = |p: &std::path::Path| -> Vec<Vec<String>> {
+            let x = CDb::open(p).unwrap();
+            let out = STATE_DUMP
+                .iter()
+                .map(|q| {
+                    let js = x.query(q, None).unwrap_or_else(|e| format!("[\"error {}\"]", e.message));
+                    let v: J = serde_json::from_str(&js).unwrap_or(J::Null);
+                    let mut rows: Vec<String> = v.as_array().map(|a| a.iter().map(|r| r.to_string()).collect()).unwrap_or_default();
+                    rows.sort();
+                    rows
+                })
+                .collect();
+            x.close().unwrap();
+            out
+        };
+        let (dc, dr) = (read_back(&pc), read_back(&pr));
+        state_cases += 1;
+        for (s, c) in stmts.iter().zip(&c_res) {
+            bump(&mut hist, &format!("state:{}:{}", s.split(' ').next().unwrap_or(""), match c { Ok(0) => "ok-count0", Ok(_) => "ok", Err(_) => "err" }));
+        }
+        nontrivial.insert(stmts.join("; "));
+        if idx < 1 {
+            rep.case(gidx, json!({"state_parity": stmts, "c_results": format!("{:?}", c_res), "rust_results": format!("{:?}", r_res)}));
+        }
+        if c_res != r_res || dc != dr {
+            fails += 1;
+            bump(&mut hist, "direct-failure:unclassified");
+            rep.fail(gidx, None, "after the same write statements the database written through ndb_execute_write differs from the one written through execute_mixed + commit (results, change counts or read-back)",
+                json!({"statements": stmts, "c_results": format!("{:?}", c_res), "rust_results": format!("{:?}", r_res), "c_database": dc, "rust_database": dr}));
+        }
+    }
     cw.flush();
     rep.stats(json!({
         "evaluations": a.n + ERRS.len(),
         "corr_cases": cw.total,
         "distinct_nontrivial": nontrivial.len(),
-        "rule": "60% classifier statements (grammar-generated, depth <= 3, updates nested in CALL{}, UNION, FOREACH, EXISTS{}; non-trivial = contains an updating clause, distinct by text); 40% read statements / parameters returning every value kind (boundary ints, doubles incl. non-finite, unicode strings, nested lists/maps, tagged-looking maps, nodes, relationships; non-trivial = value other than null/bool, distinct by value); fixed list of failing statements for error parity",
+        "rule": "60% classifier statements (grammar-generated, depth <= 3, updates nested in CALL{}, FOREACH, EXISTS{} and in any branch of 1-5-branch UNION / UNION ALL chains; non-trivial = contains an updating clause, distinct by text); 40% read statements / parameters returning every value kind (boundary ints, doubles incl. non-finite, unicode strings, nested lists/maps, tagged-looking maps, nodes, relationships; non-trivial = value other than null/bool, distinct by value); fixed list of failing statements for error parity; state parity: sequences of 2-6 write statements (many reporting a change count of 0 although they write: MERGE .. ON MATCH SET, SET to the same value, REMOVE of a missing property/label) through both write paths on identical databases, read back through ndb_query",
         "histogram": hist,
         "direct_failures": fails,
         "value_cases": value_cases,
+        "state_parity_sequences": state_cases,
         "generator_unparsed": unparsed,
         "case_files": cw.files.iter().map(|p| p.to_string_lossy().to_string()).collect::<Vec<_>>(),
     }));
